@@ -926,11 +926,12 @@ func (s *session) checkpoint(withDump bool) {
 	}
 	s.h.emit("segs %s", segsLine(s.db, s.readSeg))
 	segsDurable = nil
-	if s.h.prop == "C15" || s.h.prop == "C05" {
-		// garbage statistics that drive the choice of segments to compact (id:DeletedBytes:DeletedKeys)
+	if s.h.prop == "C15" || s.h.prop == "C05" || s.h.prop == "C04" {
+		// segment statistics, incl. the garbage figures that drive the choice of segments to compact
+		// (id:DeletedBytes:DeletedKeys:PutRecords:DeleteRecords)
 		var parts []string
 		for _, sg := range s.db.VerifSegments() {
-			parts = append(parts, fmt.Sprintf("%d:%d:%d", sg.ID, sg.DeletedBytes, sg.DeletedKeys))
+			parts = append(parts, fmt.Sprintf("%d:%d:%d:%d:%d", sg.ID, sg.DeletedBytes, sg.DeletedKeys, sg.PutRecords, sg.DeleteRecords))
 		}
 		if len(parts) > 0 {
 			s.h.emit("segmeta %s", strings.Join(parts, " "))
